@@ -258,6 +258,8 @@ func (e *exch) form() url.Values {
 		if e.ActorDeclared != "" {
 			f.Set("actor_token_type", e.ActorDeclared)
 		}
+	} else if e.ActorDeclared != "" {
+		f.Set("actor_token_type", e.ActorDeclared) // a type without a token
 	}
 	if e.Requested != "" {
 		f.Set("requested_token_type", e.Requested)
@@ -807,10 +809,10 @@ func runCase(run *ev.Run, idx, router, matrixCases int) {
 	c := &caseCtx{w: w, router: router, r: r}
 	cr := &caseRun{run: run, idx: idx, c: c, sp: sp}
 
-	subj := c.makeToken(sp.SubjKind, sp.SubjVariant)
+	subj := c.makeToken(sp.SubjKind, sp.SubjVariant, true)
 	var actor *tok
 	if sp.ActorKind != "none" {
-		actor = c.makeToken(sp.ActorKind, sp.ActorVariant)
+		actor = c.makeToken(sp.ActorKind, sp.ActorVariant, false)
 	}
 	if c.panicP != nil {
 		cr.checkPanic(c.panicP, "preparation (revoke / refresh)")
@@ -837,6 +839,8 @@ func runCase(run *ev.Run, idx, router, matrixCases int) {
 			}
 		}
 		e.ActorDeclared = typeURN(r, ad)
+	} else if r.IntN(12) == 0 {
+		e.ActorDeclared = typeURN(r, pick(r, "access", "refresh", "id", "jwt", "junk"))
 	}
 	toks := cr.do(e)
 	if cr.stop {
@@ -949,10 +953,12 @@ func main() {
 	}
 	mandatory = append(mandatory, "success:subject=opaque/access_token", "success:subject=jwt/access_token", "success:subject=refresh/refresh_token",
 		"success:subject=id/id_token", "success:subject=foreign/jwt", "success:actor=opaque", "success:actor=jwt", "success:actor=refresh", "success:actor=id", "success:follow-up")
-	run.Mandatory(mandatory...)
+	if run.ReplayCase() < 0 {
+		run.Mandatory(mandatory...)
+	}
 
-	matrixCases := run.N(matrixSize, 35*matrixSize)
-	n := run.N(matrixSize+1440, 35*matrixSize+74400)
+	matrixCases := run.N(matrixSize, 18*matrixSize)
+	n := run.N(matrixSize+1440, 18*matrixSize+36120) // 3 600 / 75 000 cases, each on both routers
 	run.Extra("cases", map[string]int{"matrix": matrixCases, "near_valid": n - matrixCases, "routers": 2})
 	if rc := run.ReplayCase(); rc >= 0 {
 		runCase(run, int(rc), 0, matrixCases)
